@@ -1,24 +1,41 @@
 #!/bin/bash
-# Runs every seeded change under /verif/seeded (and /verif/mutants) against every check's quick tier on a scratch copy of
+# Runs every seeded change under /verif/seeded (and /verif/mutants) against every check's quick tier on scratch copies of
 # the repository (never /repo itself). Intended for `vp run --with-repo -- bash scripts/mutant_matrix.sh`.
-# Output: one line per (change, check): MATRIX <change> <check> rc=<0|1|2> ; summary table at the end.
+# Output: one line per (change, check): MATRIX <change> <check> rc=<0|1|2>. LANES scratch copies work in parallel.
 cd "$(dirname "$0")/.."
 . scripts/env.sh
 SRC=${VP_RUN_REPO:-/repo}
-SCRATCH=/var/tmp/verif-matrix-repo-$$
+LANES=${LANES:-3}
 CHECKS=${CHECKS:-"C01 C02 C03 C04 C05 C06 C07 C08 C09 C10 C11 C12 C13 C14 C15 C16 C17 C18 C19 C20"}
-rm -rf $SCRATCH; mkdir -p $SCRATCH
-trap 'rm -rf $SCRATCH work/alt-*' EXIT
-rsync -a --exclude .git "$SRC/" $SCRATCH/
-(cd $SCRATCH && git init -q . && git add -A >/dev/null && git -c user.email=x@x -c user.name=x commit -qm base >/dev/null)
-export VERIF_REPO=$SCRATCH
+ONLY=${ONLY:-""}   # optional grep -E filter on change names
+BASE=/var/tmp/verif-matrix-$$
+trap 'rm -rf $BASE* work/alt-*' EXIT
+names=()
 for d in seeded/*/ mutants/*/; do
   [ -f "$d/patch.diff" ] || continue
-  name=$(basename $d)
-  (cd $SCRATCH && git checkout -q -- . && git clean -fdq)
-  if ! (cd $SCRATCH && git apply "$OLDPWD/$d/patch.diff" 2>/dev/null); then echo "MATRIX $name - does-not-apply"; continue; fi
-  for id in $CHECKS; do
-    out=$(./check $id quick 2>&1); rc=$?
-    echo "MATRIX $name $id rc=$rc $(echo "$out" | grep -m1 'detail:' | cut -c1-160)"
-  done
+  n=$(basename $d)
+  if [ -n "$ONLY" ] && ! echo "$n" | grep -Eq "$ONLY"; then continue; fi
+  names+=("$d")
 done
+lane() {
+  L=$1
+  SCRATCH=$BASE-lane$L
+  VROOT=$BASE-root$L          # private evidence/replay/work root so that lanes do not clobber each other
+  mkdir -p $SCRATCH $VROOT
+  rsync -a --exclude .git "$SRC/" $SCRATCH/
+  (cd $SCRATCH && git init -q . && git add -A >/dev/null && git -c user.email=x@x -c user.name=x commit -qm base >/dev/null)
+  cp known_findings.json $VROOT/; mkdir -p $VROOT/pyref; cp pyref/jcs_ref.py $VROOT/pyref/
+  i=0
+  for d in "${names[@]}"; do
+    i=$((i+1)); [ $((i % LANES)) -eq $((L % LANES)) ] || continue
+    name=$(basename $d)
+    (cd $SCRATCH && git checkout -q -- . && git clean -fdq)
+    if ! (cd $SCRATCH && git apply "$OLDPWD/$d/patch.diff" 2>/dev/null); then echo "MATRIX $name - does-not-apply"; continue; fi
+    for id in $CHECKS; do
+      out=$(VERIF_REPO=$SCRATCH VERIF_EVIDENCE_ROOT=$VROOT ./check $id quick 2>&1); rc=$?
+      echo "MATRIX $name $id rc=$rc $(echo "$out" | grep -m1 'detail:' | cut -c1-160)"
+    done
+  done
+}
+for L in $(seq 1 $LANES); do lane $L & done
+wait
